@@ -8,13 +8,17 @@ REPO = os.environ.get("VERIF_REPO", "/repo")
 HERE = os.path.dirname(os.path.dirname(os.path.abspath(__file__)))
 
 errors = []
+_SRC = {}
 def read(p):
-    return open(os.path.join(REPO, p), encoding="utf-8").read()
+    s = open(os.path.join(REPO, p), encoding="utf-8").read()
+    _SRC[id(s)] = p
+    return s
 
 def grab(text, pattern, what, flags=0, group=1):
     m = re.search(pattern, text, flags)
     if not m:
-        errors.append("cannot extract %s (pattern %r)" % (what, pattern))
+        # the file is named so that a check only treats the failure as its own when it depends on constants of that file
+        errors.append("[%s] cannot extract %s (pattern %r)" % (_SRC.get(id(text), "?"), what, pattern))
         return None
     return m.group(group)
 
@@ -74,7 +78,7 @@ def main():
     raw("gen_max_literal_length", "N", (grab(lv, r'max_literal_length: (\d+),', "max_literal_length") or "0") + "%N")
     cmp_ = re.search(r'if value\.len\(\) (>=|>) self\.min_literal_length && value\.len\(\) (<=|<) self\.max_literal_length', lv)
     if not cmp_:
-        errors.append("cannot extract literal length comparison")
+        errors.append("[src/visitor/literal_visitor.rs] cannot extract literal length comparison")
         lo_op, hi_op = ">", "<="
     else:
         lo_op, hi_op = cmp_.group(1), cmp_.group(2)
